@@ -7,6 +7,7 @@ import (
 	"bytes"
 	"fmt"
 	"io"
+	"strings"
 	"testing"
 	"unicode/utf8"
 
@@ -965,4 +966,108 @@ func TestExhaustiveCodePoints(t *testing.T) {
 	}
 	vh.Bulk("call", evals, nt, classes, CallCase{Input: append([]byte{0x63}, enc(0xfffd)...), Method: "text", Chunk: -1})
 	vh.Exhaustive("call", "text strings holding each of the 0x110000 code points (incl. the surrogate range, which is invalid UTF-8) alone and after an ASCII prefix: accepted exactly when the content is valid UTF-8, with the exact value")
+}
+
+
+// ----------------------------------------------------------------------------- dense shape sweeps
+//
+// One dimension at a time, EVERY value 0..1100 and a few larger ones: the number of items decoded
+// with ONE Decoder (the n-th call on one object, for every n), the count announced by an array /
+// map header followed by its items, the length of a byte / text string - complete, and with the
+// last octet missing. Each through a bytes.Reader, a plain reader, a *bytes.Buffer, a small
+// bufio.Reader, and (every 16th) an *os.File and a pipe. Judged by the stream check.
+
+type ShapeCase struct {
+	Shape string `json:"shape"`
+	N     int    `json:"n"`
+	Chunk int    `json:"chunk"`
+	Cut   int    `json:"cut,omitempty"`
+}
+
+func (c ShapeCase) stream() (StreamCase, bool) {
+	sc := StreamCase{Chunk: c.Chunk, Cut: c.Cut}
+	n := c.N
+	if n < 0 || n > 200000 {
+		return sc, false
+	}
+	it := func(major int, arg uint64) StreamItem { return StreamItem{Major: major, Arg: arg, Width: refcbor.MinWidth(arg)} }
+	switch c.Shape {
+	case "items-on-one-decoder":
+		for i := 0; i <= n; i++ {
+			if i%3 == 2 {
+				sc.Items, sc.Calls = append(sc.Items, StreamItem{Major: 3, Arg: 1, Width: 0, Fill: 's'}), append(sc.Calls, "text")
+			} else {
+				sc.Items, sc.Calls = append(sc.Items, it(0, uint64(i))), append(sc.Calls, "uint")
+			}
+		}
+	case "array-count", "map-count":
+		m, call, per := 4, "array", 1
+		if c.Shape == "map-count" {
+			m, call, per = 5, "map", 2
+		}
+		sc.Items, sc.Calls = append(sc.Items, it(m, uint64(n))), append(sc.Calls, call)
+		for i := 0; i < n*per; i++ {
+			sc.Items, sc.Calls = append(sc.Items, it(0, uint64(i%500))), append(sc.Calls, "uint")
+		}
+	case "bytes-length", "text-length":
+		m, call := 2, "bytes"
+		if c.Shape == "text-length" {
+			m, call = 3, "text"
+		}
+		x := it(m, uint64(n))
+		x.Fill = 'a' + byte(n%26)
+		sc.Items, sc.Calls = []StreamItem{x, it(0, 9)}, []string{call, "uint"}
+		if c.Cut > 0 { // the string is the last item and loses its last octet
+			sc.Items, sc.Calls = sc.Items[:1], sc.Calls[:1]
+		}
+	default:
+		return sc, false
+	}
+	return sc, true
+}
+
+var shapeProp = vh.Define("C12", "shape-sweep", func(c ShapeCase, r *vh.R) {
+	sc, ok := c.stream()
+	if !ok {
+		r.Skip = true
+		return
+	}
+	r.Class("shape:" + c.Shape)
+	sub := &vh.R{}
+	streamProp.Check(sc, sub)
+	r.V, r.Classes = sub.V, append(r.Classes, sub.Classes...)
+	r.NT()
+})
+
+func TestShapeSweep(t *testing.T) {
+	var ns []int
+	for n := 0; n <= 1100; n++ {
+		ns = append(ns, n)
+	}
+	ns = append(ns, 1500, 2048, 4095, 4096, 4097, 10000, 65535, 65536, 65537, 100000)
+	cnt := 0
+	for _, sh := range []string{"items-on-one-decoder", "array-count", "map-count", "bytes-length", "text-length"} {
+		for i, n := range ns {
+			chunks := []int{-1, 0, chunkBuffer, chunkBufio}
+			if i%16 == 5 {
+				chunks = append(chunks, gen.SourceFile, gen.SourcePipe)
+			}
+			if n > 10000 {
+				chunks = []int{-1, chunkBuffer}
+			}
+			for _, ch := range chunks {
+				cuts := []int{0}
+				if strings.HasSuffix(sh, "-length") && n > 0 {
+					cuts = []int{0, 1}
+				}
+				for _, cut := range cuts {
+					cnt++
+					if !shapeProp.One(t, ShapeCase{Shape: sh, N: n, Chunk: ch, Cut: cut}) {
+						return
+					}
+				}
+			}
+		}
+	}
+	vh.Exhaustive("shape-sweep", fmt.Sprintf("5 shapes (items on one Decoder, array / map count followed by its items, byte / text string length - complete and one octet short) x every n in 0..1100 and 10 larger values x 4..6 kinds of reader: %d streams", cnt))
 }
